@@ -82,12 +82,28 @@ def handle : List String → String
   | ["fmt", n, o] =>
     match n.toInt?, o.toInt? with
     | some n, some o =>
-      if inRange (tdiv n 1000000000 + o) then toHex (charsToBytes (formatHighres n o)) else "unsupported"
+      if inRange (n / 1000000000 + o) then toHex (charsToBytes (formatHighresNs n o)) else "unsupported"
     | _, _ => "bad-op"
-  | ["fmtfix", n, o] =>
-    match n.toInt?, o.toInt? with
-    | some n, some o =>
-      if inRange (n / 1000000000 + o) then toHex (charsToBytes (formatHighresFixed n o)) else "unsupported"
+  | ["fmt64", n, k, o] =>
+    -- the f64 `n / 2^k`, code as written
+    match n.toInt?, k.toNat?, o.toInt? with
+    | some n, some k, some o =>
+      if k > 1100 then "unsupported"
+      else if inRange (n / ((2 ^ k : Nat) : Int) + o) then toHex (charsToBytes (formatHighresF64 n k o))
+      else "unsupported"
+    | _, _, _ => "bad-op"
+  | ["fmt64c", n, k, o] =>
+    -- the f64 `n / 2^k`, with the carry into the seconds
+    match n.toInt?, k.toNat?, o.toInt? with
+    | some n, some k, some o =>
+      if k > 1100 then "unsupported"
+      else if inRange (n / ((2 ^ k : Nat) : Int) + o) && inRange (n / ((2 ^ k : Nat) : Int) + 1 + o) then
+        toHex (charsToBytes (formatHighresF64Carry n k o))
+      else "unsupported"
+    | _, _, _ => "bad-op"
+  | ["units", n, k] =>
+    match n.toInt?, k.toNat? with
+    | some n, some k => if k > 1100 then "unsupported" else toString (fracUnits n k)
     | _, _ => "bad-op"
   | ["unp", s] =>
     match fromHex s with
